@@ -5,8 +5,9 @@
 //!       `Line::new(s, e).into_styled(PrimitiveStyle::with_stroke(c, w)).pixels()` in emission
 //!       order (format of `m_line::pts_digest`: full list up to 64 points, count + first + last +
 //!       order-sensitive hash beyond). The same op also draws the styled line into the recording
-//!       target `R1` and checks that `draw` emits exactly the same pixel sequence in one
-//!       `draw_iter` call.
+//!       target `R1`: the pixel MAP must be the one of `pixels()` (C01's text, class
+//!       `C01:pixels-vs-draw:thick-line`); that `draw` is ONE `draw_iter` call with the same pixel
+//!       SEQUENCE is validated in the check of C01 only, as `C01:tie-hypothesis:line-draw-is-one-draw_iter`.
 //!
 //!   thick.bbox x0 y0 x1 y1 w   -> `bounding_box()` of the same styled line (`styled_bounding_box`,
 //!       i.e. `Line::extents(w, StrokeOffset::None)`), as `x,y,w,h`; compared with
@@ -15,7 +16,7 @@
 //!
 //! Both streams are also generated as a SMALL SLICE (`generate_line_slice`, ~230 lines per stream) for the checks of
 //! C01, C02 and C07, whose theorems speak about the single stroked line (Props/C01/Line.lean ties to `thick.points` /
-//! `thick-draw-eq-pixels`; C02 to `C02:line-bbox-contains-pixels`; C07 to the moved line): under C07 every line is
+//! `C01:pixels-vs-draw:thick-line` / `C01:tie-hypothesis:line-draw-is-one-draw_iter`; C02 to `C02:line-bbox-contains-pixels`; C07 to the moved line): under C07 every line is
 //! followed by the same line with moved end points and the oracles `C07:thick-line-translate` (pixel sequence and
 //! picture of `translate` / `translate_mut` on the primitive and on the styled line = the shifted sequence) and
 //! `C07:thick-line-bbox-translate` (the box moves along; an empty box stays empty) run on each op.
@@ -85,7 +86,13 @@
 //!   zero-length lines (L2 = 0; the code strokes them as a horizontal line of length 0): the band /
 //!   ends / middle predicates are evaluated with d = (1, 0), L2 = 1, the direction the code uses.
 //!   C17:thick-width0          w = 0 yields no pixel
-//!   thick-draw-eq-pixels      `draw` = one `draw_iter` call with the sequence of `pixels()`
+//!   draw(): C17 speaks of "a stroked line", not of the calls draw() makes. When the pixels draw() writes (through the
+//!   trait defaults, in order) are not the sequence of `pixels()` - never on the unchanged tree, counter
+//!   `obs:thick:draw-write-sequence-differs-from-pixels` - the clauses above are evaluated on them as well.
+//!   C01:pixels-vs-draw:thick-line (counts for C01)   map(draw()) == map(pixels()); in the check of C01 also on the native
+//!                             target and on two bounded targets, with C01:default-vs-native:thick-line
+//!   C01:tie-hypothesis:line-draw-is-one-draw_iter (check of C01 only; a tie, not the text)
+//!                             `draw` = one `draw_iter` call with the sequence of `pixels()`
 //!
 //! Ranges. The code computes `length_squared` and `thickness_accumulator` in `i32` and (since /repo
 //! 2947525) `thickness_threshold` = (2w)^2 L2 in `i64`: what must hold is dx^2 + dy^2 < 2^31
@@ -525,16 +532,38 @@ impl Module for M {
                     ctx.nontrivial(op);
                 }
                 thick_oracle(ctx, s, e, w, &px);
-                // draw() = one draw_iter call with the same sequence
+                // draw(): the property texts speak of pixel MAPS (C01) and of "a stroked line" (C17), not of how draw() talks
+                // to the target. What is written through the trait defaults (R1: every call arrives as draw_iter), in order:
                 let mut r1: R1<BinaryColor> = R1::unbounded();
                 let res = styled.draw(&mut r1);
-                let drawn: Vec<Point> = match r1.rec.log.as_slice() {
-                    [Call::DrawIter(v)] => v.iter().map(|((x, y), _)| Point::new(*x, *y)).collect(),
-                    _ => vec![Point::new(i32::MIN, i32::MIN)],
-                };
-                ctx.expect(res.is_ok() && drawn == px, "thick-draw-eq-pixels", || {
-                    format!("{:?}->{:?} w={} draw() differs from pixels()", s, e, w)
+                let drawn: Vec<Point> = r1
+                    .rec
+                    .log
+                    .iter()
+                    .flat_map(|c| match c {
+                        Call::DrawIter(v) => v.iter().map(|((x, y), _)| Point::new(*x, *y)).collect::<Vec<_>>(),
+                        _ => Vec::new(),
+                    })
+                    .collect();
+                let pxmap: PMap = px.iter().map(|p| ((p.y, p.x), 1u32)).collect();
+                // C01, last sentence: pixels() fed to draw_iter leaves the map of draw() (pixels() yields the stroke colour On = 1)
+                ctx.expect(res.is_ok() && r1.rec.map == pxmap, "C01:pixels-vs-draw:thick-line", || {
+                    format!("{:?}->{:?} w={}: draw() {} px, pixels() {} px, {} differing entries", s, e, w, r1.rec.map.len(), pxmap.len(), map_diff(&r1.rec.map, &pxmap))
                 });
+                if drawn == px {
+                    ctx.count("thick:draw-write-sequence=pixels-sequence");
+                } else {
+                    // C17 speaks of "a stroked line", which is also what draw() renders: when draw() does not simply hand
+                    // out pixels() (it does on the unchanged tree), every clause of the sentence is evaluated on the
+                    // pixels draw() writes as well (same predicates, same classes)
+                    ctx.count("obs:thick:draw-write-sequence-differs-from-pixels");
+                    if res.is_ok() {
+                        thick_oracle(ctx, s, e, w, &drawn);
+                    }
+                }
+                if ctx.pid == "C01" {
+                    c01_line_paths(ctx, &styled, s, e, w, &px, &pxmap, &r1);
+                }
                 if ctx.pid == "C07" {
                     // C07: the stroked line moved by d (`translate` on the primitive, `translate` / `translate_mut` on the
                     // styled line) yields the pixel sequence of the unmoved one shifted by d
@@ -579,6 +608,51 @@ impl Module for M {
             "thick.polyline" => exec_polyline(&mut t, op, ctx),
             "thick.triangle" => exec_triangle(&mut t, op, ctx),
             _ => panic!("unknown op {}", op),
+        }
+    }
+}
+
+/// C01 on the single stroked line (runs in the check of C01 only): the three drawing paths - `draw()` on a draw_iter-only
+/// target, `draw()` on a native-fill target, `draw_iter(pixels())` - leave the same MAP, unbounded and on two bounded
+/// targets that cut the stroke (classes `C01:pixels-vs-draw:thick-line`, `C01:default-vs-native:thick-line`: the text).
+/// That `draw()` is ONE `draw_iter` call carrying the SEQUENCE of `pixels()` is not a clause of C01: it is what the model
+/// transcribes (`Thick.drawStyled`, Props/C01/Line.lean (a), `rfl` there), validated on the real code under the class
+/// `C01:tie-hypothesis:line-draw-is-one-draw_iter` (a failure is a broken tie, not a failing input).
+#[allow(clippy::too_many_arguments)]
+fn c01_line_paths(ctx: &mut Ctx, styled: &embedded_graphics::primitives::Styled<Line, PrimitiveStyle<BinaryColor>>, s: Point, e: Point, w: u32, px: &[Point], pxmap: &PMap, r1: &R1<BinaryColor>) {
+    let one_call_same_seq = match r1.rec.log.as_slice() {
+        [Call::DrawIter(v)] => v.len() == px.len() && v.iter().zip(px).all(|(((x, y), _), p)| Point::new(*x, *y) == *p),
+        _ => false,
+    };
+    ctx.expect(one_call_same_seq, "C01:tie-hypothesis:line-draw-is-one-draw_iter", || {
+        format!("{:?}->{:?} w={}: draw() is not one draw_iter call with the sequence of pixels() ({} call(s)): the model's `Thick.drawStyled` no longer transcribes the code", s, e, w, r1.rec.log.len())
+    });
+    let mut r2 = R2::<BinaryColor>::unbounded();
+    let ok2 = styled.draw(&mut r2).is_ok();
+    ctx.expect(ok2 && r2.rec.map == *pxmap, "C01:pixels-vs-draw:thick-line", || {
+        format!("{:?}->{:?} w={}: draw() on the native-fill target {} px, pixels() {} px", s, e, w, r2.rec.map.len(), pxmap.len())
+    });
+    ctx.expect(r1.rec.map == r2.rec.map, "C01:default-vs-native:thick-line", || {
+        format!("{:?}->{:?} w={}: draw_iter-only target {} px, native-fill target {} px, {} differing entries", s, e, w, r1.rec.map.len(), r2.rec.map.len(), map_diff(&r1.rec.map, &r2.rec.map))
+    });
+    let bb = styled.bounding_box();
+    if !pxmap.is_empty() && bb.size.width <= 4096 && bb.size.height <= 4096 {
+        let (w3, h3) = ((bb.size.width / 3) as i32 + 1, (bb.size.height / 3) as i32 + 1);
+        for tl in [bb.top_left + Point::new(w3, h3), bb.top_left - Point::new(w3, h3)] {
+            let b = Rectangle::new(tl, bb.size);
+            let (mut b1, mut b2, mut bp) = (R1::<BinaryColor>::new(b), R2::<BinaryColor>::new(b), R1::<BinaryColor>::new(b));
+            let ok = styled.draw(&mut b1).is_ok() & styled.draw(&mut b2).is_ok() & bp.draw_iter(styled.pixels()).is_ok();
+            if b2.rec.map.len() != pxmap.len() {
+                ctx.count("thick:c01:cut-by-a-bounded-target");
+            }
+            // the picture on a bounded target is the unbounded picture restricted to the box
+            let want: PMap = pxmap.iter().filter(|((y, x), _)| b.contains(Point::new(*x, *y))).map(|(k, v)| (*k, *v)).collect();
+            ctx.expect(ok && b1.rec.map == b2.rec.map, "C01:default-vs-native:thick-line", || {
+                format!("{:?}->{:?} w={} target {}: draw_iter-only {} px, native-fill {} px", s, e, w, fmt_rect(&b), b1.rec.map.len(), b2.rec.map.len())
+            });
+            ctx.expect(ok && bp.rec.map == b2.rec.map && b2.rec.map == want, "C01:pixels-vs-draw:thick-line", || {
+                format!("{:?}->{:?} w={} target {}: draw_iter(pixels()) {} px, draw() {} px, unbounded picture inside the box {} px", s, e, w, fmt_rect(&b), bp.rec.map.len(), b2.rec.map.len(), want.len())
+            });
         }
     }
 }
